@@ -25,6 +25,10 @@
 
 
 #define ENTRIES_ALLOC_INIT  (1000)
+#if defined(JLS_VERIF) && defined(JLS_VERIF_TMAP_ALLOC_INIT)
+#undef ENTRIES_ALLOC_INIT
+#define ENTRIES_ALLOC_INIT  (JLS_VERIF_TMAP_ALLOC_INIT)
+#endif
 
 
 struct jls_tmap_s {
